@@ -586,6 +586,21 @@ func genGaussParams(t *rapid.T, allowPeakRate bool) (p gaussParams, q questionab
 	default:
 		p.Stddev = pick(t, "stddevFixed", []time.Duration{150 * time.Minute, time.Minute, time.Millisecond, 0, -time.Second})
 	}
+	// two corners the independent draws above rarely reach: a peak that lies
+	// z standard deviations outside the window (almost no mass inside it), and a
+	// bell much narrower than a tick centred exactly on a tick
+	switch k := unif(t, "corner", 100); {
+	case k < 10 && p.Repeat > 0 && p.Stddev > 0 && p.Stddev < time.Hour:
+		z := 3 + unif(t, "sigmasOutside", 43)
+		if unif(t, "before", 2) == 0 {
+			p.Peak = p.Repeat + time.Duration(z)*p.Stddev
+		} else {
+			p.Peak = -time.Duration(z) * p.Stddev
+		}
+	case k < 16 && p.Repeat > 0 && p.Freq > 0 && p.Freq < p.Repeat:
+		p.Stddev = pick(t, "narrow", []time.Duration{1, 10, 100, time.Microsecond, time.Millisecond})
+		p.Peak = p.Freq * time.Duration(unif(t, "peakTick", int(p.Repeat/p.Freq)))
+	}
 	switch k := unif(t, "volumeKind", 100); {
 	case k < 60:
 		p.Volume = float64(pick(t, "volume", []int{0, 1, 10, 100, 1000, 86400, 100000, 1000000}))
